@@ -200,7 +200,7 @@ def declEntries (v : Var) (a : AttrName) : List Entry :=
   | some (.lit l) => [.const l.toPy.num]
   | some (.arr rows) => (colMajor rows).map fun l => .const l.toPy.num
   | some (.expr e) => (List.range e.numel).map fun k => .ex (e.elem k)
-  | some (.arrE es) => es.map fun e => .ex (e.elem 0)
+  | some (.arrE rows) => (colMajor rows).map fun e => .ex (e.elem 0)
   | some (.dm x) => List.replicate (if v.dims.isEmpty then 1 else v.numel) (.const (.fin x))
 
 /-- `python_type(v)` does not change the number `v` stands for: no truncation of a non-integral
